@@ -10,6 +10,18 @@ COMMON_NOTE = ("trusted: Coq 8.16.1 kernel (vm_compute, no native_compute), Extr
                "Go harness + build-tag verif hooks, generated constants (harness/cmd/dump); ")
 
 CLAIMED = {
+    "C07": dict(
+        text="Coq theorems over a byte-level model of parseGo (Go slice semantics, strconv.Atoi, named-return semantics), "
+             "removePrefixGarbage and the handleInput dispatch: parse_go never panics for ANY token list; every go line of distinct "
+             "standard parameters in any order with in-range values yields exactly the record those parameters denote (nodes/mate "
+             "acknowledged, fields untouched; empty or 'infinite' => infinite); unknown prefixes are skipped, lines without a command "
+             "word dispatch to nothing; a missing or non-integer value is reported and never panics. Tied to the code by differential "
+             "runs of VerifParseGo (fields and printed info strings) and of the real handleInput with a recording game; the oracle is "
+             "an independent reference parser; plus process-level liveness scripts against the real engine binary (tested, not proved).",
+        note="token lists after strings.Fields (ASCII whitespace modelled); depth 0..255; strconv.Quote modelled for printable ASCII "
+             "tokens (others compared by event kind); positions given to the engine are legal game states; lines <= 64 KiB",
+        technique="Coq proof (induction over token lists, atoi/itoa round trip) + differential correspondence check + process liveness probe",
+        ref="DESIGN.md section 6, C07"),
     "C08": dict(
         text="Coq theorems over the Gallina transliteration of calculateTime (int64 wrap explicit): budget < mover's clock, "
              "budget < movetime, independence from the opponent's clock/increment, for all inputs below 2^40 ms; tied to the Go "
@@ -28,6 +40,16 @@ CLAIMED = {
         note="non-zero hashes; exact-score clause for scores outside the mate range (inside it the ply-adjusted score, as stated in the theorem)",
         technique="Coq proof (invariant over operation histories with ghost log) + differential correspondence check",
         ref="DESIGN.md section 6, C14"),
+    "C17": dict(
+        text="Coq theorem over the Gallina transliteration of both generators: for every position satisfying the C10 invariant the "
+             "capture generator's list EQUALS (same order, hence same multiset) the filter of the full generator's list by 'captures "
+             "something' (target occupied or en passant) - pushes incl. push promotions and castling are shown to land on empty squares, "
+             "capture promotions are kept as blocks of four, the en-passant block is identical. Tied to GeneratePseudoLegalMoves / "
+             "GeneratePseudoLegalCaptures by differential runs on sampled positions (lists compared in order); the oracle compares Go's "
+             "two lists with each other.",
+        note="positions satisfying Inv (C10)",
+        technique="Coq proof (list equality via bits/filter lemmas) + differential correspondence check",
+        ref="DESIGN.md section 6, C17"),
 }
 
 
